@@ -409,6 +409,21 @@ def expected_bindings(spec):
         return [('KMinus' if d < 0 else 'KPlus', abs(d))]
     if k in ('list', 'set') and spec[3] and spec[2] is not None and spec[2] != spec[4] and not spec[2][1]:
         return []          # adding / removing nothing requests nothing (UpdateStatement.add_update drops such clauses)
+    if k == 'list' and spec[3] is None and spec[2] is not None and spec[2] != spec[4]:
+        # independent reading of the documented diff: the stored list is kept where it occurs as a contiguous run of the new list
+        # (first occurrence), what stands before it is prepended, what follows is appended; otherwise the list is rewritten
+        v = spec[2][1]
+        prev = spec[4][1] if spec[4] else None
+        if prev and len(v) >= len(prev):
+            for i in range(len(v) - len(prev) + 1):
+                if v[i:i + len(prev)] == prev:
+                    out = []
+                    if v[:i]:
+                        out.append(('KPrepend', ['L', v[:i]]))
+                    if v[i + len(prev):]:
+                        out.append(('KPlus', ['L', v[i + len(prev):]]))
+                    return out or [('KAssign', ['L', v])]
+        return [('KAssign', ['L', v])]
     if k == 'list' and spec[3] and spec[2] is not None and spec[2] != spec[4]:
         return [('KPlus' if spec[3] == 'append' else 'KPrepend', spec[2])]
     if k == 'set' and spec[3] and spec[2] is not None and spec[2] != spec[4]:
@@ -513,8 +528,8 @@ def gen_list_pair(rng):
     if prev is None or rng.random() < 0.3:
         return rng.choice(LISTS), prev
     r = rng.random()
-    pre = rng.choice([[], [9], [1], [prev[0]] if prev else [4], [8, 9]])
-    app = rng.choice([[], [9], [2], [prev[-1]] if prev else [4], [7, 7]])
+    pre = rng.choice([[], [9], [9], [1], [prev[0]] if prev else [4], [8, 9]])
+    app = rng.choice([[], [9], [2], [2], [prev[-1]] if prev else [4], [7, 7]])
     if r < 0.6:
         return pre + prev + app, prev
     if r < 0.8 and prev:
@@ -545,7 +560,7 @@ def gen_clause(rng, kind, part, f):
     if part == 'C':
         return ['cond', f, rng.choice(INTS)]
     if part == 'F':
-        if rng.random() < 0.5:
+        if rng.random() < 0.35:
             return ['delf', f]
         return ['mapdel', f, rng.choice([None] + [['M', m] for m in MAPS]), rng.choice([None] + [['M', m] for m in MAPS])]
     # assignments
@@ -572,7 +587,7 @@ def gen_clause(rng, kind, part, f):
     return ['counter', f, rng.choice([-2, 0, 1, 5]), rng.choice([None, 0, 3, 5])]
 
 
-PARTS_OF = {'Select': ['W'], 'Insert': ['A'], 'Update': ['A', 'A', 'W', 'C'], 'Delete': ['F', 'W', 'C']}
+PARTS_OF = {'Select': ['W'], 'Insert': ['A'], 'Update': ['A', 'A', 'W', 'C'], 'Delete': ['F', 'F', 'W', 'C']}
 
 
 def gen_stmt(rng, kind=None, maxn=6):
@@ -583,6 +598,17 @@ def gen_stmt(rng, kind=None, maxn=6):
     if kind == 'Insert':
         ops.append(['add', 'A', gen_clause(rng, kind, 'A', f)])
         f += 1
+    if kind == 'Delete' and rng.random() < 0.4:
+        # key removals from several map columns in one DELETE (what one save of an instance with several maps emits), later renumbered
+        for _ in range(rng.randint(2, 3)):
+            prev = rng.choice([m for m in MAPS if m])
+            keep = [kv for kv in prev if rng.random() < 0.4]
+            if len(keep) == len(prev):
+                keep = keep[1:]
+            ops.append(['add', 'F', ['mapdel', f, ['M', keep], ['M', prev]]])
+            f += 1
+        if rng.random() < 0.5:
+            ops.append(['renum', rng.choice([0, 1, 3, 10])])
     for _ in range(n):
         if rng.random() < 0.12:
             ops.append(['renum', rng.choice([0, 1, 3, 10, 100])])
